@@ -187,6 +187,8 @@ class Engine(ValueOps, ExprOps, CallOps, StmtOps):
         if not isinstance(lam, ast.Lambda):
             raise Unsupported('%s needs a lambda' % name, node)
         bounds = [self.ev(a) for a in node.args[:-1]]
+        if len(bounds) == 2 and all(b.kind == 'int' and b.is_const for b in bounds) and bounds[0].const >= bounds[1].const:
+            return self.mk_bool(TRUE if name == 'forall' else FALSE)          # empty range
         names = [a.arg for a in lam.args.args]
         bvs = []
         saved = dict(st.env)
@@ -247,6 +249,8 @@ class Engine(ValueOps, ExprOps, CallOps, StmtOps):
                 return SV('tuple', seq=self.seq_of(v), elems=v.elems, ty=frozenset([('tuple', (self.elem_ty(v),))]))
             if name == 'is_fresh' and len(args) == 1 and self.old_state is not None:
                 v = args[0]
+                if v.kind == 'val' and 'any' in v.ty:
+                    return self.mk_bool(mk_le(self.old_state.alloc, "(vr %s)" % v.term))      # total selector (specification)
                 if v.kind == 'val':
                     v = self.narrow(v)
                 if v.kind in ('ref', 'list', 'dict') and v.term is not None:
@@ -518,6 +522,13 @@ class Engine(ValueOps, ExprOps, CallOps, StmtOps):
                     self.havoc_heap(['ghost:' + gname])
                 elif it.startswith('heap:'):
                     self.havoc_heap([it[5:]])
+                elif it.startswith('fresh:'):
+                    # the attribute changes on objects allocated since (by the loop / callee) only: older objects keep it
+                    attr = it[6:]
+                    old_arr = st.heap_arr(attr)
+                    self.havoc_heap([attr])
+                    st.assume("(forall ((r Int)) (! (=> (< r %s) (= (select %s r) (select %s r))) :pattern ((select %s r))))"
+                              % (st.alloc, st.heap[attr], old_arr, st.heap[attr]), 'wf')
                 elif it.startswith('dict(') and it.endswith(')'):
                     d = self.spec_eval(it[5:-1])
                     dom, val = self.dict_heaps()
@@ -794,7 +805,7 @@ class Engine(ValueOps, ExprOps, CallOps, StmtOps):
         for it in con.modifies:
             if it.startswith('heap:'):
                 whole.add(it[5:])
-            elif it.startswith('dict(') or it.startswith('list(') or it.startswith('ghost:') or it == 'alloc':
+            elif it.startswith('dict(') or it.startswith('list(') or it.startswith('ghost:') or it.startswith('fresh:') or it == 'alloc':
                 continue
             else:
                 node = ast.parse(it, mode='eval').body
